@@ -4,7 +4,7 @@
    every run (Gen/C24Window.v); the composition (Model/C24Query.v) is tied to the implementation by the correspondence run.
    R = q_list q is list(q).  All bounds are arbitrary non-negative integers, all row lists / predicates / sort keys arbitrary. *)
 Require Import PonyV.Base.PyBase PonyV.Base.Seg PonyV.Gen.C24Window PonyV.Model.C24Query
-               PonyV.Proofs.C24Window PonyV.Proofs.C24Query.
+               PonyV.Proofs.C24Window PonyV.Proofs.C24Query PonyV.Model.C24Params PonyV.Proofs.C24Params.
 From Coq Require Import Permutation.
 
 (* limits of nested queries combine arithmetically into one LIMIT/OFFSET that selects the window of the window *)
@@ -179,3 +179,15 @@ Example C24_repaired_cases :
   bulk_deleted Z.eqb (nest (zquery [1; 2; 3] (fun _ => true) false false None no_window) (Some 2, None)) = [1; 2] /\
   q_count_pair None (zzquery [(1, 1); (1, 2); (2, 1)] (fun _ => true) false true None no_window) = Ok 3.
 Proof. split; vm_compute; reflexivity. Qed.
+
+(* chained filter()/where() steps whose lambdas capture values -- also when all steps share ONE code object (a helper applied
+   several times): each step reads its own value (the key of a captured value contains the filter number, which every step advances:
+   next_filter_num / clone_passes_filter_num are scanned from Query._process_lambda), so the chain is the successive Python filters *)
+Theorem C24_chained_lambda_steps : forall (A : Type) (rows : list A) (l : list (@step A)),
+  pq_list (apply_steps l (pq_base rows)) = py_filters l rows.
+Proof. exact @chained_filters. Qed.
+Print Assumptions C24_chained_lambda_steps.
+
+Example C24_chained_nonvacuous :      (* one code object (0), captured values 1 then 3: rows > 1 and > 3 *)
+  pq_list (apply_steps [(0%nat, fun v x => v <? x, 1); (0%nat, fun v x => v <? x, 3)] (pq_base [5; 2; 4; 1])) = [5; 4].
+Proof. vm_compute. reflexivity. Qed.
